@@ -36,7 +36,7 @@ impl Monitor for C10 {
         if tier == Tier::Sanitizer {
             vec!["windows_checked"]
         } else {
-            vec!["windows_checked", "rx1_offset_in_force", "rx2_override_in_force", "dlchannel_in_force", "rxdelay_in_force", "join_windows_checked", "classc_gap_checked", "fixed_500k_channel", "nb_timing_checked", "async_timing_checked", "remapped_channel_redefined"]
+            vec!["windows_checked", "rx1_offset_in_force", "rx2_override_in_force", "dlchannel_in_force", "rxdelay_in_force", "join_windows_checked", "classc_gap_checked", "fixed_500k_channel", "nb_timing_checked", "async_timing_checked", "remapped_channel_redefined", "refused_rxparamsetup_steps"]
         }
     }
 
@@ -425,6 +425,20 @@ fn data_case(reg: Reg, front: Front, dslot: Option<usize>, off: Option<u8>, dcla
             }
             changed = true;
         }
+        // a request the device has to refuse (RX2 on 100 MHz, in no region's band) whose other fields are
+        // valid and differ from what is in force: the negotiated values stay what they were
+        let mut refused = false;
+        if dslot.is_none() && !changed && rng.chance(1, 6) {
+            let o2 = (snap.rx1_dr_offset + 1 + rng.below(reg.max_rx1_offset() as u64) as u8) % (reg.max_rx1_offset() + 1);
+            let c = rx_param_setup_req((o2 << 4) | (reg.rx2_default().1), 1_000_000);
+            let f = link.mac_frame(&c, rng.bool());
+            if rng.bool() {
+                script.rx1.push(f);
+            } else {
+                script.rx2.push(f);
+            }
+            refused = true;
+        }
         if front == Front::AsyncC && rng.chance(1, 5) {
             // Class C downlink with a MAC command in the gap: accepted, command not executed
             let c = rx_timing_setup_req(rng.range(2, 9) as u8);
@@ -437,6 +451,16 @@ fn data_case(reg: Reg, front: Front, dslot: Option<usize>, off: Option<u8>, dcla
             return;
         }
         let after = link.dev.snapshot();
+        if refused {
+            col.event("refused_rxparamsetup_steps");
+            if after.rx1_dr_offset != snap.rx1_dr_offset || after.rx2_frequency != snap.rx2_frequency || after.rx2_data_rate != snap.rx2_data_rate {
+                col.violation(
+                    &format!("C10|negotiated-values-changed-by-refused-request|{}", if after.rx1_dr_offset != snap.rx1_dr_offset { "rx1-offset" } else { "rx2" }),
+                    "an RXParamSetupReq with an RX2 frequency outside every band changed the receive parameters in force",
+                    json!({"region": reg.name(), "front": front.name(), "before": {"rx1_dr_offset": snap.rx1_dr_offset, "rx2_frequency": snap.rx2_frequency, "rx2_data_rate": snap.rx2_data_rate}, "after": {"rx1_dr_offset": after.rx1_dr_offset, "rx2_frequency": after.rx2_frequency, "rx2_data_rate": after.rx2_data_rate}}),
+                );
+            }
+        }
         check_windows(reg, front, false, &snap, &after, matches!(t.resp, Resp::DownlinkReceived(_)), &model, &t.evs, txd, lead, col, if changed { "with-param-change-in-flight" } else { "plain" }, json!({"step": step, "dr": dr}));
         if col.want_sample() && step == 0 {
             col.sample(json!({"region": reg.name(), "front": front.name(), "dr": dr, "offset_requested": want_off, "rx2_override": rx2_override, "events": format!("{:?}", t.evs.iter().filter(|e| !matches!(e, Ev::Tx{..})).collect::<Vec<_>>())}));
